@@ -36,7 +36,7 @@ class Unsupported(Exception):
 # --------------------------------------------------------------------------- atoms
 
 class Atom:
-    __slots__ = ("kind", "args", "id", "pos", "name")
+    __slots__ = ("kind", "args", "id", "pos", "name", "scales")
     _table: dict = {}
     _all: list = []
 
@@ -57,6 +57,7 @@ def _mk_atom(kind, args, pos=False):
         a = Atom()
         a.kind, a.args, a.id, a.pos = kind, tuple(args), len(Atom._all), pos
         a.name = None
+        a.scales = None
         Atom._table[key] = a
         Atom._all.append(a)
     elif pos and not a.pos:
@@ -283,8 +284,17 @@ def _split_content(p: Poly, need_pos: bool):
         if not common:
             return None, p
     m = tuple(sorted(common.items()))
-    minv = p_inv(Poly({m: Fraction(1)}))
-    return Poly({m: Fraction(1)}), p_mul(p, minv)
+    rest = {}
+    for mono, c in p.terms.items():
+        d = dict(mono)
+        for i, e in common.items():
+            v = d[i] - e
+            if v:
+                d[i] = v
+            else:
+                del d[i]
+        rest[tuple(sorted(d.items()))] = c
+    return Poly({m: Fraction(1)}), Poly(rest)
 
 
 def _lead_normalise(p: Poly):
@@ -427,6 +437,9 @@ def mkLOG(p: Poly) -> Poly:
     r = Poly.atom(la)
     if c != 1:
         r = p_add(r, log_const(c))
+        if la.scales is None:
+            la.scales = set()
+        la.scales.add(c)   # ln(c * pn) was asked for: remembered for scale-aware monotonicity axioms
     return r
 
 
@@ -435,17 +448,26 @@ def mkE(a: Poly) -> Poly:
     if not a.terms:
         return ONE
     factor = ONE
+    logfactor = ZERO
     rest = {}
+    # constants (multiples of ln(prime)) are pulled out only when that removes every constant logarithm
+    # from the argument; otherwise they all stay inside, where the sign/monotonicity axioms can see them
+    pull_lam = all(c.denominator == 1 for m, c in a.terms.items()
+                   if len(m) == 1 and m[0][1] == 1 and Atom._all[m[0][0]].kind == "lam")
     for m, c in a.terms.items():
         if len(m) == 1 and m[0][1] == 1:
             at = Atom._all[m[0][0]]
+            if at.kind == "lam" and not pull_lam:
+                rest[m] = c
+                continue
             if at.kind in ("L", "lam"):
-                k = math.floor(c)
+                k = math.trunc(c)   # toward zero: keeps the sign of the residual exponent
                 if k != 0:
                     if at.kind == "lam":
                         factor = p_scale(factor, Fraction(at.args[0]) ** k)
                     else:
                         factor = p_mul(factor, p_powi(at.args[0], k))
+                    logfactor = p_add(logfactor, Poly({m: Fraction(k)}))
                     c = c - k
                 if c != 0:
                     rest[m] = c
@@ -455,7 +477,14 @@ def mkE(a: Poly) -> Poly:
         return factor
     at = _mk_atom("E", (Poly(rest),), pos=True)
     r = Poly.atom(at)
-    return p_mul(factor, r) if factor is not ONE else r
+    if factor is not ONE:
+        # exp(rest + logfactor) = factor * E(rest) was asked for: remembered for scale-aware axioms
+        if at.scales is None:
+            at.scales = set()
+        if len(at.scales) < 4 and len(factor.terms) <= 8:
+            at.scales.add((factor, logfactor))
+        return p_mul(factor, r)
+    return r
 
 
 def mkPOWF(base: Poly, expo: Poly) -> Poly:
@@ -777,6 +806,114 @@ def linear_solution(p: Poly, banned=()):
     return None
 
 
+class _Den:
+    """Denominator in factored form: monomial part {atom_id: exp>0} times polynomial factors {Poly: exp>0}."""
+    __slots__ = ("mono", "facs")
+
+    def __init__(self, mono=None, facs=None):
+        self.mono = mono or {}
+        self.facs = facs or {}
+
+    def lcm(self, o):
+        m = dict(self.mono)
+        for i, e in o.mono.items():
+            m[i] = max(m.get(i, 0), e)
+        f = dict(self.facs)
+        for q, e in o.facs.items():
+            f[q] = max(f.get(q, 0), e)
+        return _Den(m, f)
+
+    def quotient(self, o) -> Poly:
+        """self / o as a polynomial (o must divide self factor-wise)."""
+        m = {}
+        for i, e in self.mono.items():
+            v = e - o.mono.get(i, 0)
+            if v:
+                m[i] = v
+        r = Poly({tuple(sorted(m.items())): Fraction(1)})
+        for q, e in self.facs.items():
+            v = e - o.facs.get(q, 0)
+            if v:
+                r = p_mul(r, p_powi(q, v))
+        return r
+
+    def poly(self) -> Poly:
+        return self.quotient(_Den())
+
+    def mul(self, o):
+        m = dict(self.mono)
+        for i, e in o.mono.items():
+            m[i] = m.get(i, 0) + e
+        f = dict(self.facs)
+        for q, e in o.facs.items():
+            f[q] = f.get(q, 0) + e
+        return _Den(m, f)
+
+    def pow(self, k):
+        return _Den({i: e * k for i, e in self.mono.items()}, {q: e * k for q, e in self.facs.items()})
+
+
+def as_fraction(p: Poly, _memo=None):
+    """p = N / D with N a polynomial free of inv-atoms and negative exponents at top level and D a
+    `_Den` (factored denominator); atoms nested inside E/L/uf arguments are left alone."""
+    if _memo is None:
+        _memo = {}
+
+    def f_inv(i):
+        r = _memo.get(i)
+        if r is None:
+            n, d = as_fraction(Atom._all[i].args[0], _memo)
+            # 1/(n/d) = d/n : numerator d (expanded), denominator the single factor n
+            sm = n.single_monomial()
+            if sm is not None and all(e > 0 for _, e in sm[0]):
+                r = (p_scale(d.poly(), 1 / sm[1]), _Den({i_: e for i_, e in sm[0]}))
+            else:
+                r = (d.poly(), _Den({}, {n: 1}))
+            _memo[i] = r
+        return r
+
+    items = []
+    L = _Den()
+    for m, c in p.terms.items():
+        n, d = Poly.const(c), _Den()
+        num_mono = {}
+        for i, e in m:
+            if Atom._all[i].kind == "inv" and e > 0:
+                an, ad = f_inv(i)
+                n = p_mul(n, p_powi(an, e))
+                d = d.mul(ad.pow(e))
+            elif e < 0:
+                d = d.mul(_Den({i: -e}))
+            else:
+                num_mono[i] = e
+        if num_mono:
+            n = p_mul(n, Poly({tuple(sorted(num_mono.items())): Fraction(1)}))
+        items.append((n, d))
+        L = L.lcm(d)
+    N = ZERO
+    for n, d in items:
+        N = p_add(N, p_mul(n, L.quotient(d)))
+    return N, L
+
+
+def rational_equal(a: Poly, b: Poly) -> bool:
+    """Decide a == b as rational functions of the atoms by cross-multiplication of canonical forms."""
+    global MAX_MONOMIALS
+    if a == b:
+        return True
+    old = MAX_MONOMIALS
+    MAX_MONOMIALS = 20000   # give up early: this is an optimisation, the solver is the fallback
+    try:
+        na, da = as_fraction(a)
+        nb, db = as_fraction(b)
+        L = da.lcm(db)
+        return p_sub(p_mul(na, L.quotient(da)), p_mul(nb, L.quotient(db))).is_zero()
+    except Unsupported:
+        return False
+    finally:
+        MAX_MONOMIALS = old
+
+
 class EvalError(Exception):
     pass
 
@@ -847,6 +984,10 @@ def evalf(p, env: dict, ufs: dict | None = None, _memo=None):
     if isinstance(p, BoolT):
         return eb(p)
     return ep(p)
+
+
+def collect_atom_ids(p) -> set:
+    return {a.id for a in collect_atoms([p])}
 
 
 def collect_atoms(roots) -> list:
